@@ -30,7 +30,7 @@ func (P) Rule() string {
 	return "cases: a real FilePV on a key file under the process cwd; sequences of SignVote/SignProposal requests whose (height,round,step) moves up / stays / moves down " +
 		"relative to the last request, with same / timestamp-only-different / different block ids and chain ids, in-process restarts (drop the object, LoadFilePV) at random points, " +
 		"and restarts INSIDE a call (the call runs in a child process killed by strace at the entry of the k-th openat/write/close/renameat/unlinkat of the call or at the write that " +
-		"hands the result to the caller); plus an exhaustive small-value sweep of checkHRS through the exported API, SignVoteWithoutSave cases (tag nosave) and a malformed stream " +
+		"hands the result to the caller), write ERRORS inside a call (child process with RLIMIT_FSIZE below the record length: the temp-file write is cut short or fails with EFBIG, from 0 bytes to the full length); plus an exhaustive small-value sweep of checkHRS through the exported API, SignVoteWithoutSave cases (tag nosave) and a malformed stream " +
 		"(unknown vote types, records with sign-bytes but no signature, extreme heights/rounds). " +
 		"non-trivial = the case contains a same-HRS request after a successful signature, or a lower-HRS request, or a restart; distinct = distinct op sequence"
 }
@@ -52,6 +52,7 @@ type req struct {
 	ppt    int
 	nosave bool
 	kill   string // "<syscall>:<n>" or ""
+	fail   string // "fsize:<n>" | "short:<k>" or "": the write of the record fails beyond that many bytes
 }
 
 func hexOrDash(b []byte) string { return hx.Hex(b) }
@@ -137,6 +138,9 @@ func (q *req) line() string {
 	if q.nosave {
 		s += " nosave=1"
 	}
+	if q.fail != "" {
+		s += " fail=" + q.fail
+	}
 	if q.kill != "" {
 		s += " kill=" + q.kill
 	}
@@ -171,6 +175,7 @@ func parseReq(toks []string) *req {
 		q.nosave = true
 	}
 	q.kill, _ = hx.Arg(toks, "kill")
+	q.fail, _ = hx.Arg(toks, "fail")
 	return q
 }
 
@@ -460,7 +465,7 @@ func (e *exec) Exec(op string) string {
 		if e.pv == nil {
 			return "dead"
 		}
-		if q.kill == "" {
+		if q.kill == "" && q.fail == "" {
 			return e.answer(doSign(e.pv, q))
 		}
 		// the call runs in a child process; whatever happens, this "process" ends afterwards
@@ -472,6 +477,8 @@ func (e *exec) Exec(op string) string {
 		var ans string
 		if killed {
 			ans = "killed disk=" + e.diskStr()
+		} else if q.fail != "" && res.panicked {
+			ans = "failed disk=" + e.diskStr() // the signing call panicked under write-error injection
 		} else {
 			ans = e.answer(res)
 		}
@@ -536,10 +543,18 @@ func (P) Monitor(c *hx.CaseRun) []hx.Failure {
 	}
 	var rels []release
 	var lastDisk *hrs
+	prevDisk := "" // the key file record reported by the previous answer
 	for i, op := range c.Ops {
 		ans := c.Impl[i]
 		toks := hx.Tokens(op)
 		atoks := hx.Tokens(ans)
+		before := prevDisk
+		prevDisk, _ = hx.Arg(atoks, "disk")
+		if strings.HasPrefix(ans, "failed") && before != "" && prevDisk != before {
+			// a save that reported an error must leave the previous content of the key file in place
+			fail("failed_save_keeps_key_file", "key-file-write-not-atomic-or-not-synced",
+				fmt.Sprintf("op %d %q: the signing call failed under write-error injection but the key file changed from %s to %s", i, clipStr(op), before, prevDisk))
+		}
 		if d, ok := hx.Arg(atoks, "disk"); ok && (d == "corrupt" || d == "missing") && toks[0] != "case" {
 			fail("key_file_loadable", "key-file-"+d, fmt.Sprintf("op %d %q: the key file is %s", i, clipStr(op), d))
 		}
@@ -571,6 +586,15 @@ func (P) Monitor(c *hx.CaseRun) []hx.Failure {
 			continue
 		}
 		dh, dsb, dsig, haveDisk := parseDisk(ans)
+		if q.fail != "" && before != "" && prevDisk != before {
+			// under write-error injection the key file may change only into the COMPLETE new record
+			sigTok, _ := hx.Arg(atoks, "sig")
+			complete := strings.HasPrefix(ans, "ok ") && haveDisk && dh == at && dsig == sigTok && dsb == sigTok
+			if !complete && !strings.HasPrefix(ans, "failed") {
+				fail("failed_save_keeps_key_file", "key-file-write-not-atomic-or-not-synced",
+					fmt.Sprintf("op %d %q: write errors were injected and the key file changed from %s to %s, which is not the complete new record (answer %q)", i, clipStr(op), before, prevDisk, clipStr(ans)))
+			}
+		}
 		if strings.HasPrefix(ans, "ok ") {
 			sig, _ := hx.Arg(atoks, "sig")
 			ts, _ := hx.Arg(atoks, "ts")
